@@ -149,8 +149,14 @@ def random_plan(rng) -> Dict[str, Any]:
     ops = []
     n = rng.randrange(2, 11)
     n_m3 = n_m5 = 0
+    warm = rng.random() < 0.35   # start from a verified exchange so that the M5 branches are reached
+    if warm:
+        ops += [op_m1(rng, conn=0), op_m3_honest(rng, "ok", "exact", "min", conn=0)]
+        n_m3 = 1
     for _ in range(n):
         r = rng.random()
+        if warm and r < 0.5:
+            r = 0.64 + r * 0.44   # mostly M5 variants
         if r < 0.22 or not ops:
             ops.append(op_m1(rng))
         elif r < 0.42:
@@ -471,7 +477,7 @@ def run(ctx: Ctx):
         impl.append(res["impl"])
         tags.append(("script", len(plan["ops"])))
         for k in res["kinds"]:
-            st.hit("op", k.split("-key-")[0] if k.startswith("M5-key") else k)
+            st.hit("op", k)
         for o in res["outs"]:
             st.hit("outcome", o)
         st.case(["s", res["bodies"], plan["prepaired"]], bool(plan["ops"]))
